@@ -145,6 +145,20 @@ def deeper(n, seed):
 MALFORMED = ["", "(", ")", "name", "and", "protein and", "or water", "(protein", "protein)", "name CA and", "resid 1 to", "resid to 3", "index <", "< 5",
              "protein water", "not", "name =~", "5", "'CA'", "CA", "5 < 7", "name CA CB and", "protein and and water", "resid 1 2 to 3", "((protein)", "mass >"]
 
+def literals_special():
+    """literals that look like something else: a quote character of the OTHER kind inside a quoted literal (nucleic-acid primed names), bare words
+    spelled like identifiers the compiled code uses internally, or like Python constants / language keywords inside quotes (the bare words None, True,
+    False are deliberately read as constants by the implementation and are not part of this family)"""
+    out = []
+    for kw in ("name", "resname", "segment_id"):
+        for lit in ('"C5\'"', "'O5\"'", '"O\'P"', "re", "atom", "'re'", '"atom"', "np", "'None'", "'and'", '"or"', '"to"', "self", "topology"):
+            out.append(f"{kw} {lit}")
+            out.append(f"{kw} CA {lit}")
+            out.append(f"{kw} == {lit}")
+    out += ['name =~ "C[45]\'"', "name =~ 're'", "resname re and name CA", "not name atom", "name atom or resname re"]
+    return out
+
+
 def parens_deep():
     """nested parentheses, 3 to 8 deep, around leaves and inside boolean combinations"""
     reps = ["protein", "name CA", "resid 1 to 3", "index < 5", "mass gt 12", "resSeq == 7", "resname ALA GLY", "name =~ 'C.*'"]
@@ -159,7 +173,7 @@ def parens_deep():
     return out
 
 
-FAMILIES = {"parens_deep": parens_deep, "keywords": leaves_keywords, "implicit_eq": leaves_implicit, "lists": leaves_lists, "ranges": leaves_ranges, "cmp_ops": leaves_cmp,
+FAMILIES = {"literals_special": literals_special, "parens_deep": parens_deep, "keywords": leaves_keywords, "implicit_eq": leaves_implicit, "lists": leaves_lists, "ranges": leaves_ranges, "cmp_ops": leaves_cmp,
             "regex": leaves_regex, "bool_depth1": depth1, "bool_depth2": depth2}
 
 
@@ -246,7 +260,21 @@ def check_family(family: str, extra_seed: int = -1, n_extra: int = 0, known_keys
         try:
             mdp = ck.tr.truth(ck.tr.sel(node))
         except Unsupported as u:
+            # the parser produced a node the documented language never needs (e.g. a live name where a string constant belongs): decide on solver-chosen
+            # witnesses for both truth values of the REFERENCE predicate, through the real select()
             n_unsup += 1
+            bad = None
+            for const, refv in ((z3.BoolVal(False), True), (z3.BoolVal(True), False)):
+                r2, w2 = ck.equivalent(const, refp)
+                if r2 != "sat":
+                    continue
+                rep, script, out = _replay(e, w2, refv)
+                if rep:
+                    bad = {"goal": e, "key": family + ":untranslatable:" + _classify(e), "reproduced": True, "replay_script": script, "inputs": w2, "replay_output": f"AST node outside the language ({u}); " + out}
+                    break
+            if bad:
+                cex = bad
+                break
             continue
         r, w = ck.equivalent(mdp, refp)
         if r == "unsat":
